@@ -57,12 +57,36 @@ type sample struct {
 	Inc int64  `json:"i"`
 }
 
+// a --format expression: literal text and references {0}/{val}, {1}/{min}, {2}/{max}
+type piece struct {
+	Lit   string `json:"lit,omitempty"`
+	Ref   int    `json:"ref"` // -1: literal; 0 value, 1 min, 2 max
+	Named bool   `json:"named,omitempty"`
+}
+
+func exprOf(ps []piece) string {
+	var sb strings.Builder
+	for _, p := range ps {
+		switch {
+		case p.Ref < 0:
+			sb.WriteString(p.Lit)
+		case p.Named:
+			sb.WriteString([]string{"{val}", "{min}", "{max}"}[p.Ref])
+		default:
+			fmt.Fprintf(&sb, "{%d}", p.Ref)
+		}
+	}
+	return sb.String()
+}
+
 type c14In struct {
 	Kind   string `json:"kind"`
 	Col    bool   `json:"colour"`
 	Uni    bool   `json:"unicode"`
 	Scaler string `json:"scaler,omitempty"`
-	Fmt    int    `json:"formatter,omitempty"` // 0 Passthru, 1 Default (humanize)
+	Fmt    int    `json:"formatter,omitempty"` // 0 Passthru, 1 Default (humanize), 2 --format expression (Tmpl)
+	Tmpl   []piece     `json:"format_expr,omitempty"`
+	Calls  [][3]int64  `json:"calls,omitempty"` // kind fmt: (value, min, max) per call of one compiled formatter
 
 	Mn int64     `json:"min,omitempty"`
 	Mx int64     `json:"max,omitempty"`
@@ -135,11 +159,18 @@ func logMap(name string, x int64) float64 {
 	return math.Log10(f)
 }
 
-func formatterOf(k int) termformat.Formatter {
-	if k == 0 {
+func formatterOf(in c14In) termformat.Formatter {
+	switch in.Fmt {
+	case 0:
 		return termformat.Passthru
+	case 1:
+		return termformat.Default
 	}
-	return termformat.Default
+	f, err := termformat.FromExpression(exprOf(in.Tmpl))
+	if err != nil {
+		panic("format expression " + exprOf(in.Tmpl) + ": " + err.Error())
+	}
+	return f
 }
 
 // visible runes of a rendered line: everything from ESC up to the next 'm' is dropped
@@ -278,6 +309,13 @@ func runImpl(in c14In) c14Out {
 			o.Lines = append(o.Lines, sb.String())
 		}
 		return o
+	case "fmt":
+		f := formatterOf(in) // compiled once; every call goes through the same formatter value
+		o := c14Out{Completed: true}
+		for _, c := range in.Calls {
+			o.Lines = append(o.Lines, f(c[0], c[1], c[2]))
+		}
+		return o
 	case "table":
 		vt := multiterm.NewVirtualTerm()
 		t := termrenderers.NewTable(vt, in.MaxC, in.MaxR)
@@ -295,7 +333,7 @@ func runImpl(in c14In) c14Out {
 		h.ShowBar = in.ShowBar
 		h.ShowPercentage = false
 		h.Scaler = scalerOf(in.Scaler)
-		h.Formatter = formatterOf(in.Fmt)
+		h.Formatter = formatterOf(in)
 		for _, op := range in.HOps {
 			switch op.Kind {
 			case "line":
@@ -313,7 +351,7 @@ func runImpl(in c14In) c14Out {
 		b.BarSize = in.Size
 		b.Stacked = in.Stacked
 		b.Scaler = scalerOf(in.Scaler)
-		b.Formatter = formatterOf(in.Fmt)
+		b.Formatter = formatterOf(in)
 		b.SetKeys(in.Keys...)
 		for _, op := range in.BOps {
 			if op.Foot {
@@ -331,18 +369,18 @@ func runImpl(in c14In) c14Out {
 		case "heat":
 			r := termrenderers.NewHeatmap(vt, in.RLim, in.CLim)
 			r.Scaler = scalerOf(in.Scaler)
-			r.Formatter = formatterOf(in.Fmt)
+			r.Formatter = formatterOf(in)
 			write = func() { r.WriteTable(agg, sorting.NVNameSorter, sorting.NVNameSorter) }
 		case "spark":
 			r := termrenderers.NewSpark(vt, in.RLim, in.CLim)
 			r.Scaler = scalerOf(in.Scaler)
-			r.Formatter = formatterOf(in.Fmt)
+			r.Formatter = formatterOf(in)
 			write = func() { r.WriteTable(agg, sorting.NVNameSorter, sorting.NVNameSorter) }
 		default:
 			r := termrenderers.NewDataTable(vt, in.CLim, in.RLim)
 			r.ShowRowTotals = in.RowTot
 			r.ShowColTotals = in.ColTot
-			r.SetFormatter(formatterOf(in.Fmt))
+			r.SetFormatter(formatterOf(in))
 			write = func() { r.WriteTable(agg, sorting.NVNameSorter, sorting.NVNameSorter) }
 		}
 		o := c14Out{}
@@ -561,8 +599,26 @@ func mapperTerm(name string, xs []int64, ranges [][2]int64, withKeys bool) strin
 	return "(MTab [" + strings.Join(tb, ";") + "] [" + strings.Join(kt, ";") + "])"
 }
 
+func fspecTerm(in c14In) string {
+	switch in.Fmt {
+	case 0:
+		return "FPass"
+	case 1:
+		return "FHuman"
+	}
+	ps := make([]string, len(in.Tmpl))
+	for i, p := range in.Tmpl {
+		if p.Ref < 0 {
+			ps[i] = "pL " + R(p.Lit)
+		} else {
+			ps[i] = fmt.Sprintf("pR %d", p.Ref)
+		}
+	}
+	return "(FTmpl [" + strings.Join(ps, ";") + "])"
+}
+
 func cfgTerm(in c14In, xs []int64, ranges [][2]int64) string {
-	return fmt.Sprintf("(cf %s %s %s %d)", B(in.Col), B(in.Uni), mapperTerm(in.Scaler, xs, ranges, in.Kind == "heat"), in.Fmt)
+	return fmt.Sprintf("(cf %s %s %s %s)", B(in.Col), B(in.Uni), mapperTerm(in.Scaler, xs, ranges, in.Kind == "heat"), fspecTerm(in))
 }
 
 func aggTerm(st aggState) string {
@@ -591,6 +647,12 @@ func inputTerm(in c14In, o c14Out) string {
 		return fmt.Sprintf("IHeatC %s %s %s", B(in.Col), B(in.Uni), DYL(in.Us))
 	case "sparkc":
 		return fmt.Sprintf("ISparkC %s %s", B(in.Uni), DYL(in.Us))
+	case "fmt":
+		cs := make([]string, len(in.Calls))
+		for i, c := range in.Calls {
+			cs[i] = fmt.Sprintf("(%s,%s,%s)", ZZ(c[0]), ZZ(c[1]), ZZ(c[2]))
+		}
+		return fmt.Sprintf("IFmt %s [%s]", fspecTerm(in), strings.Join(cs, ";"))
 	case "table":
 		ops := make([]string, len(in.TOps))
 		for i, op := range in.TOps {
@@ -815,6 +877,15 @@ func boundaryTags(in c14In, o c14Out) []string {
 		if in.N == 0 && in.Kind != "heatc" && in.Kind != "sparkc" {
 			t = append(t, "b:zero-length")
 		}
+	case "fmt":
+		for i, c := range in.Calls {
+			if c[1] == c[2] {
+				t = append(t, "b:min-equals-max")
+			}
+			if i > 0 && c[2] == in.Calls[i-1][1] {
+				t = append(t, "b:max-equals-previous-min")
+			}
+		}
 	case "stack":
 		if in.MaxVal <= 0 {
 			t = append(t, "b:zero-max")
@@ -840,8 +911,21 @@ func boundaryTags(in c14In, o c14Out) []string {
 	case "histo":
 		var ks []string
 		var vs []int64
+		var runMax int64
+		shown := false
 		for _, op := range in.HOps {
 			if op.Kind == "line" {
+				if op.N < in.MaxLines {
+					if op.Val > runMax {
+						if shown {
+							t = append(t, "b:maximum-grows-after-a-line-was-drawn")
+						}
+						runMax = op.Val
+					}
+					if op.Val > 0 {
+						shown = true
+					}
+				}
 				ks = append(ks, op.Key)
 				vs = append(vs, op.Val)
 				if op.N >= in.MaxLines {
@@ -873,6 +957,12 @@ func boundaryTags(in c14In, o c14Out) []string {
 			}
 			if in.CLim == 0 || in.RLim == 0 {
 				t = append(t, "b:zero-limit")
+			}
+			if in.Fmt == 2 {
+				t = append(t, "b:format-expression")
+				if st.Min == st.Max && st.Min != 0 {
+					t = append(t, "b:format-expression-min-equals-max")
+				}
 			}
 			t = append(t, keyTags(append(append([]string{}, st.Cols...), st.Rows...))...)
 			var vs []int64
@@ -1158,8 +1248,131 @@ func genTable(r *Rng) c14In {
 	return in
 }
 
+var litPool = []string{" of ", " in [", "..", "]", "/", "-", ":", " ", "x", "max=", " (", ")", "#", "=", "% of "}
+
+// a --format expression with at least one reference
+func genTmpl(r *Rng) []piece {
+	n := r.Range(1, 5)
+	var ps []piece
+	hasRef := false
+	for i := 0; i < n; i++ {
+		if r.Chance(2, 5) {
+			ps = append(ps, piece{Ref: -1, Lit: Pick(r, litPool)})
+		} else {
+			ps = append(ps, piece{Ref: r.Intn(3), Named: r.Bool()})
+			hasRef = true
+		}
+	}
+	if !hasRef || r.Chance(1, 2) {
+		ps = append(ps, piece{Ref: -1, Lit: Pick(r, litPool)}, piece{Ref: 2, Named: r.Bool()})
+	}
+	return ps
+}
+
+// formatter choice for a renderer case
+func setFmt(r *Rng, in *c14In) {
+	in.Fmt = r.Intn(3)
+	if in.Fmt == 2 {
+		in.Tmpl = genTmpl(r)
+	}
+}
+
+// one compiled formatter, a sequence of calls in which min/max repeat, coincide, and take the
+// value another argument had in the previous call
+func genFmtSeq(r *Rng) c14In {
+	in := c14In{Kind: "fmt", Fmt: 2, Tmpl: genTmpl(r)}
+	n := r.Range(2, 8)
+	var prev [3]int64
+	for i := 0; i < n; i++ {
+		var c [3]int64
+		c[0] = genVal(r)
+		switch r.Intn(7) {
+		case 0:
+			c[1], c[2] = c[0], c[0] // all equal
+		case 1:
+			c[1] = int64(r.Range(0, 9))
+			c[2] = c[1] // min = max
+		case 2:
+			c[1], c[2] = prev[1], prev[2] // same frame
+		case 3:
+			c[1] = int64(r.Range(0, 9))
+			c[2] = prev[1] // max takes the previous min
+		case 4:
+			c[1] = prev[2]
+			c[2] = prev[2] + int64(r.Range(0, 5))
+		default:
+			a, b := genVal(r), genVal(r)
+			if a > b {
+				a, b = b, a
+			}
+			c[1], c[2] = a, b
+		}
+		in.Calls = append(in.Calls, c)
+		prev = c
+	}
+	return in
+}
+
+// frames as the histogram command draws them: UpdateTotal, then the lines top to bottom — in key
+// order, so the largest value can be anywhere and the maximum can grow in the middle of a frame
+func genHistoFrames(r *Rng) c14In {
+	in := c14In{Kind: "histo", Col: r.Bool(), Uni: r.Bool(), Scaler: genScaler(r), MaxLines: r.Range(2, 6), ShowBar: true}
+	setFmt(r, &in)
+	k := r.Range(2, in.MaxLines)
+	keys := make([]string, k)
+	vals := make([]int64, k)
+	for i := range keys {
+		keys[i] = fmt.Sprintf("%c%d", 'a'+i, i)
+		if r.Chance(1, 5) {
+			keys[i] = genKey(r) + fmt.Sprint(i)
+		}
+	}
+	top := int64(Pick(r, []int{10, 100, 1000, 1000000}))
+	order := r.Intn(4)
+	for i := range vals {
+		switch order {
+		case 0: // ascending: maximum last
+			vals[i] = top * int64(i+1) / int64(k)
+		case 1: // maximum in the middle
+			vals[i] = 1 + int64(r.Intn(int(top/2)))
+			if i == k/2 {
+				vals[i] = top
+			}
+		case 2: // powers: 1, 10, 100, ...
+			vals[i] = 1
+			for j := 0; j < i; j++ {
+				vals[i] *= 10
+			}
+		default:
+			vals[i] = 1 + int64(r.Intn(int(top)))
+		}
+		if vals[i] < 1 {
+			vals[i] = 1
+		}
+	}
+	frames := r.Range(1, 3)
+	for f := 0; f < frames; f++ {
+		if f > 0 || r.Bool() {
+			var total int64
+			for _, v := range vals {
+				total += v
+			}
+			in.HOps = append(in.HOps, hOp{Kind: "total", Val: total})
+		}
+		for i := 0; i < k; i++ {
+			in.HOps = append(in.HOps, hOp{Kind: "line", N: i, Key: keys[i], Val: vals[i]})
+		}
+		// the counts grow between frames, not uniformly
+		for i := range vals {
+			vals[i] += int64(r.Intn(int(top))) * int64(r.Intn(3))
+		}
+	}
+	return in
+}
+
 func genHisto(r *Rng) c14In {
-	in := c14In{Kind: "histo", Col: r.Bool(), Uni: r.Bool(), Scaler: genScaler(r), Fmt: r.Intn(2), MaxLines: r.Range(0, 6), ShowBar: r.Chance(4, 5)}
+	in := c14In{Kind: "histo", Col: r.Bool(), Uni: r.Bool(), Scaler: genScaler(r), MaxLines: r.Range(0, 6), ShowBar: r.Chance(4, 5)}
+	setFmt(r, &in)
 	n := r.Range(1, 10)
 	vs := genVals(r, n)
 	for i := 0; i < n; i++ {
@@ -1180,7 +1393,8 @@ func genHisto(r *Rng) c14In {
 }
 
 func genBarG(r *Rng) c14In {
-	in := c14In{Kind: "barg", Col: r.Bool(), Uni: r.Bool(), Scaler: genScaler(r), Fmt: r.Intn(2), Stacked: r.Bool(), Size: Pick(r, []int{0, 1, 10, 50, 50})}
+	in := c14In{Kind: "barg", Col: r.Bool(), Uni: r.Bool(), Scaler: genScaler(r), Stacked: r.Bool(), Size: Pick(r, []int{0, 1, 10, 50, 50})}
+	setFmt(r, &in)
 	nk := r.Range(0, 4)
 	for i := 0; i < nk; i++ {
 		in.Keys = append(in.Keys, genKey(r))
@@ -1217,7 +1431,8 @@ func genBarG(r *Rng) c14In {
 }
 
 func genAgg(r *Rng, kind string) c14In {
-	in := c14In{Kind: kind, Col: r.Bool(), Uni: r.Bool(), Scaler: genScaler(r), Fmt: r.Intn(2), RowTot: r.Bool(), ColTot: r.Bool()}
+	in := c14In{Kind: kind, Col: r.Bool(), Uni: r.Bool(), Scaler: genScaler(r), RowTot: r.Bool(), ColTot: r.Bool()}
+	setFmt(r, &in)
 	if kind == "data" {
 		in.Scaler = ""
 	}
@@ -1248,10 +1463,18 @@ func genAgg(r *Rng, kind string) c14In {
 		in.CLim = Pick(r, []int{0, 1, 2, 3})
 	}
 	nb := r.Range(1, 3)
-	regime := r.Intn(5)
+	regime := r.Intn(6)
 	for b := 0; b < nb; b++ {
 		var batch []sample
-		if len(cl) > 0 && len(rl) > 0 {
+		if regime == 5 && len(cl) > 0 && len(rl) > 0 {
+			// every cell the same non-zero number: min = max != 0
+			v := int64(Pick(r, []int{1, 2, 7, 1000, -3}))
+			for _, c := range cl {
+				for _, rw := range rl {
+					batch = append(batch, sample{Col: c, Row: rw, Inc: v})
+				}
+			}
+		} else if len(cl) > 0 && len(rl) > 0 {
 			ns := r.Range(0, 14)
 			for i := 0; i < ns; i++ {
 				var inc int64
@@ -1290,6 +1513,17 @@ func fixedCases() []c14In {
 		// all-equal, bucket exactly 1.0, zero limits
 		{Kind: "heat", Scaler: "linear", RLim: 0, CLim: 0, Batches: [][]sample{{{Col: "c", Row: "r", Inc: 1}}}},
 		{Kind: "heat", Scaler: "log2", Uni: true, Col: true, RLim: 5, CLim: 5, Batches: [][]sample{{{Col: "c", Row: "r", Inc: 7}, {Col: "d", Row: "r", Inc: 7}}, {{Col: "e", Row: "s", Inc: 7}}}},
+		// histogram lines in key order with the maximum last; the final screen must be proportional
+		{Kind: "histo", Scaler: "linear", MaxLines: 3, ShowBar: true, HOps: []hOp{{Kind: "total", Val: 0}, {Kind: "line", N: 0, Key: "a", Val: 1}, {Kind: "line", N: 1, Key: "b", Val: 10}, {Kind: "line", N: 2, Key: "c", Val: 100}}},
+		{Kind: "histo", Scaler: "log10", Uni: true, Col: true, MaxLines: 3, ShowBar: true, HOps: []hOp{{Kind: "line", N: 0, Key: "a", Val: 1}, {Kind: "line", N: 1, Key: "b", Val: 10}, {Kind: "total", Val: 11}, {Kind: "line", N: 0, Key: "a", Val: 2}, {Kind: "line", N: 1, Key: "b", Val: 10}, {Kind: "line", N: 2, Key: "c", Val: 40}}},
+		{Kind: "histo", Scaler: "log2", MaxLines: 4, ShowBar: true, HOps: []hOp{{Kind: "line", N: 0, Key: "a", Val: 3}, {Kind: "line", N: 1, Key: "b", Val: 100}, {Kind: "line", N: 2, Key: "c", Val: 7}}},
+		// one compiled --format expression: min = max, max taking the value of the previous min
+		{Kind: "fmt", Fmt: 2, Tmpl: []piece{{Ref: 0}, {Ref: -1, Lit: " in ["}, {Ref: 1}, {Ref: -1, Lit: ".."}, {Ref: 2}, {Ref: -1, Lit: "] / "}, {Ref: 1, Named: true}, {Ref: -1, Lit: "-"}, {Ref: 2, Named: true}},
+			Calls: [][3]int64{{5, 0, 10}, {7, 7, 7}, {3, 3, 9}, {9, 3, 9}, {4, 4, 4}, {0, 0, 0}, {1, 0, 4}}},
+		{Kind: "data", Fmt: 2, Tmpl: []piece{{Ref: 0}, {Ref: -1, Lit: " of "}, {Ref: 2}}, RLim: 4, CLim: 4, RowTot: true, ColTot: true,
+			Batches: [][]sample{{{Col: "c1", Row: "r1", Inc: 7}, {Col: "c2", Row: "r1", Inc: 7}, {Col: "c1", Row: "r2", Inc: 7}, {Col: "c2", Row: "r2", Inc: 7}}}},
+		{Kind: "spark", Scaler: "linear", Fmt: 2, Tmpl: []piece{{Ref: 0, Named: true}, {Ref: -1, Lit: " of "}, {Ref: 2, Named: true}}, RLim: 4, CLim: 4,
+			Batches: [][]sample{{{Col: "c1", Row: "r1", Inc: 7}, {Col: "c2", Row: "r1", Inc: 7}}}},
 		{Kind: "data", RLim: 1, CLim: 1, RowTot: true, ColTot: true, Batches: [][]sample{{{Col: "c", Row: "r", Inc: 1000}, {Col: "d", Row: "s", Inc: -5}}}},
 	}
 }
@@ -1338,9 +1572,13 @@ func c14Gen(r *Rng, n int, tier string) []Case {
 			in = c14In{Kind: "sparkc", Uni: r.Bool(), Us: genUnits(r, r.Range(1, 8))}
 		case k < 55:
 			in = genTable(r)
-		case k < 64:
+		case k < 60:
 			in = genHisto(r)
-		case k < 75:
+		case k < 66:
+			in = genHistoFrames(r)
+		case k < 69:
+			in = genFmtSeq(r)
+		case k < 77:
 			in = genBarG(r)
 		case k < 87:
 			in = genAgg(r, "heat")
@@ -1375,7 +1613,7 @@ func main() {
 	Main(&Prop{
 		Name:   "C14",
 		Header: "From Coq Require Import List NArith ZArith QArith.\nFrom RareV Require Import Model.Render Corr.C14Case.\nImport ListNotations.\nOpen Scope Z_scope.\n",
-		Rule: "fixed boundary cases (the recorded defects; zero limits; all-equal data) followed by seeded random cases over 14 kinds: Scaler.Scale on ascending value lists for (min,max) incl. int64 extremes, degenerate and inverted ranges x {linear, log2, log10}; ScaleKeys; Bucket / LengthVal / BarWrite / HeatWrite / SparkWrite on unit values incl. 0, 1, 1-ulp, dyadic and non-dyadic fractions; BarWriteStacked; TableWriter row/footer histories; HistoWriter, BarGraph (stacked/grouped) call histories; Heatmap, Spark, DataTable.WriteTable after each of 1-3 batches of samples into a TableAggregator (0-8 rows x 0-8 columns, limits 0..n+2), x colour on/off x unicode on/off x formatter {Passthru, humanize}. Keys: empty, long, multi-byte, with SGR sequences, with unterminated ESC. Values: zero, negative, all-equal, up to 2^50. " +
+		Rule: "fixed boundary cases (the recorded defects; zero limits; all-equal data) followed by seeded random cases over 15 kinds: Scaler.Scale on ascending value lists for (min,max) incl. int64 extremes, degenerate and inverted ranges x {linear, log2, log10}; ScaleKeys; Bucket / LengthVal / BarWrite / HeatWrite / SparkWrite on unit values incl. 0, 1, 1-ulp, dyadic and non-dyadic fractions; BarWriteStacked; TableWriter row/footer histories; HistoWriter, BarGraph (stacked/grouped) call histories; Heatmap, Spark, DataTable.WriteTable after each of 1-3 batches of samples into a TableAggregator (0-8 rows x 0-8 columns, limits 0..n+2), x colour on/off x unicode on/off x formatter {Passthru, humanize, a generated --format expression over {0}/{val} {1}/{min} {2}/{max} and literal text}; histogram frames (UpdateTotal, then the lines top to bottom in key order: maximum last / in the middle / growing between frames) whose FINAL screen is compared; call sequences on ONE compiled --format expression (min = max, max = previous min, repeated frames); tables whose cells are all equal and non-zero. Keys: empty, long, multi-byte, with SGR sequences, with unterminated ESC. Values: zero, negative, all-equal, up to 2^50. " +
 			"distinct = distinct JSON input; non-trivial = at least one b:* boundary tag (see distribution).",
 		Gen: c14Gen,
 		Replay: func(d json.RawMessage) (Case, error) {
